@@ -30,6 +30,9 @@ ASSUMPTIONS = [
     "conversations run with the corrected cipher; the uncorrected behaviour is excluded by construction",
     "the server double does what the client code consumes: acks, key directory handing out each one-time prekey once, group "
     "info, per-participant fan-out, receipt routing, offline queueing; nothing more is claimed about a real server",
+    "python-axolotl 0.2.2 appends a received sender-key state behind the existing ones (external defect E4): two group messages of "
+    "one sender delivered in reverse order lose the older one as a 'duplicate'; conversations run with new states put in front, as "
+    "libsignal does; recorded as external known finding with a canary on the library class",
     "a wait that expires while a client thread is busy is reported as inconclusive (exit 2), never as a violation",
 ]
 
@@ -168,10 +171,30 @@ def e3_canary(out):
     return out
 
 
+def e4_canary(out):
+    """external defect E4 (python-axolotl 0.2.2): a newly received sender-key state is appended behind the existing ones
+    while lookups return the first match; libsignal puts new states in front."""
+    compat.patch_axolotl_senderkey_order(False)
+    try:
+        from axolotl.groups.state.senderkeyrecord import SenderKeyRecord
+        from axolotl.ecc.curve import Curve
+        rec = SenderKeyRecord()
+        pub = Curve.generateKeyPair().getPublicKey()
+        rec.addSenderKeyState(7, 1, b"k" * 32, pub)   # distribution carried by the later message, arrives first
+        rec.addSenderKeyState(7, 0, b"j" * 32, pub)   # distribution carried by the earlier message, arrives second
+        if rec.getSenderKeyState(7).getSenderChainKey().getIteration() != 0:
+            out.fail("external", "external:axolotl_senderkeyrecord_new_state_appended_behind_old", {})
+    finally:
+        compat.patch_axolotl_senderkey_order(True)
+    return out
+
+
 def run_case(case):
     out = Outcome()
     if case.get("sub") == "e3_canary":
         return e3_canary(out)
+    if case.get("sub") == "e4_canary":
+        return e4_canary(out)
     w = World(case)
     try:
         return _run(case, out, w)
@@ -227,38 +250,43 @@ def _run(case, out, w):
             if not server.outq:
                 continue
             k = op[1] % len(server.outq)
-            if kind in ("dup", "corrupt"):
-                # faults apply to message stanzas: pick among the queued ones
-                cands = [i for i, q in enumerate(server.outq) if q[2].get("kind") == "message" and not q[2].get("duplicate")]
-                if cands:
-                    k = cands[op[1] % len(cands)]
+            if kind == "dup":
+                # the server queues a second copy of a message stanza (delivered later like any other queued stanza)
+                cands = [i for i, q in enumerate(server.outq) if q[2].get("kind") == "message" and not q[2].get("duplicate")
+                         and not q[2].get("has_copy")]
+                if not cands:
+                    continue
+                k = cands[op[1] % len(cands)]
+                jid, node, meta = server.outq[k]
+                meta["has_copy"] = True
+                m = find_message(messages, meta["msg_id"])
+                m["dups"][jid] = m["dups"].get(jid, 0) + 1
+                server.seq += 1
+                server.outq.insert(k + 1, [jid, node, dict(meta, duplicate=True, seq=server.seq)])
+                nt = True
+                out.label("duplicate_delivery")
+                continue
+            if kind == "corrupt":
+                cands = [i for i, q in enumerate(server.outq) if q[2].get("kind") == "message" and q[1].getAllChildren("enc")
+                         and q[0] not in find_message(messages, q[2]["msg_id"])["corrupted"]]
+                if not cands:
+                    continue
+                k = cands[op[1] % len(cands)]
+                jid, node, meta = server.outq[k]
+                m = find_message(messages, meta["msg_id"])
+                m["corrupted"].add(jid)
+                if not any(e.getTag() == "message" and e.getId() == m["id"] for e in clients[jid].app_got):
+                    m.setdefault("corrupted_first", set()).add(jid)   # the corrupted copy is the first one this recipient sees
+                nt = True
+                out.label("corrupted_ciphertext")
+                if k != 0:
+                    out.label("reordered_delivery")
+                server.step(clients, k, mutate=lambda n, _b=op[2] if len(op) > 2 else 0: corrupt(n, _b))
+                continue
             if k != 0:
                 nt = True
                 out.label("reordered_delivery")
-            jid, node, meta = server.outq[k]
-            if kind == "deliver":
-                server.step(clients, k)
-            elif kind == "dup":
-                if meta.get("kind") != "message" or meta.get("duplicate"):
-                    server.step(clients, k)
-                    continue
-                m = find_message(messages, meta["msg_id"])
-                m["dups"][jid] = m["dups"].get(jid, 0) + 1
-                nt = True
-                out.label("duplicate_delivery")
-                server.step(clients, k, duplicate=True)
-            else:
-                if meta.get("kind") != "message" or meta.get("duplicate"):
-                    server.step(clients, k)
-                    continue
-                m = find_message(messages, meta["msg_id"])
-                if jid in m["corrupted"] or not node.getAllChildren("enc"):
-                    server.step(clients, k)
-                    continue
-                m["corrupted"].add(jid)
-                nt = True
-                out.label("corrupted_ciphertext")
-                server.step(clients, k, mutate=lambda n, _b=op[2] if len(op) > 2 else 0: corrupt(n, _b))
+            server.step(clients, k)
         elif kind == "restart":
             jid = w.jids[op[1] % len(w.jids)]
             busy = any(q[0] == jid for q in server.outq) or any(find_message(messages, q[2].get("msg_id", ""))
@@ -299,6 +327,15 @@ def _run(case, out, w):
         for jid, c in clients.items():
             got = [e for e in c.app_got if e.getTag() == "message" and e.getId() == m["id"]]
             if jid in m["recipients"]:
+                retried = [n for j2, n in server.log if j2 == jid and n.tag == "receipt" and n["type"] == "retry" and n["id"] == m["id"]]
+                if len(got) == 2 and m["dups"].get(jid, 0) >= 1 and retried:
+                    # specific history: the first copy could not be decrypted (retry requested, message re-sent and shown), then the
+                    # server's duplicate of the original stanza arrived and decrypted, because the failed attempt had not used up
+                    # its message key - the library has no other duplicate detection than the ratchet
+                    scope = "group" if m["to"] in GROUPS else "direct"
+                    out.fail("delivery", "delivery:%s:shown_twice:duplicate_stanza_after_retry_resend" % scope,
+                             {"message": m["id"], "recipient": jid, "dups": m["dups"].get(jid, 0), "corrupted": jid in m["corrupted"]})
+                    continue
                 if len(got) != 1:
                     out.fail("delivery", "delivery:%s:message_delivered_%d_times" % (key_kind, len(got)),
                              {"message": m["id"], "recipient": jid, "classes": [type(e).__name__ for e in got],
@@ -361,7 +398,7 @@ def _run(case, out, w):
                 out.fail("wire", "wire:outgoing_message_with_non_enc_child", {"account": jid, "children": bad})
                 return out
     for m in messages:
-        for r in m["corrupted"]:
+        for r in m.get("corrupted_first", ()):
             retries = [n for j, n in server.log if j == r and n.tag == "receipt" and n["type"] == "retry" and n["id"] == m["id"]]
             if not retries:
                 out.fail("retry", "retry:no_retry_receipt_for_corrupted_message", {"message": m["id"], "recipient": r})
